@@ -80,8 +80,11 @@ def generate(prop, rng, index, tier):
                 actor.append({"do": "empty-row", "row": rng.randrange(nrows)})
             elif k < 0.6:
                 actor.append({"do": "rename-header", "col": rng.randrange(ncols), "to": rng.choice(["zz", "A ", "a"])})
-            elif k < 0.8:
+            elif k < 0.74:
                 actor.append({"do": "blank-after", "row": rng.randrange(nrows + 1)})
+            elif k < 0.8:
+                # blank lines in front of the header, or a byte-order mark (what spreadsheet programs put in front of UTF-8)
+                actor.append({"do": rng.choice(["blank-before-header", "byte-order-mark"]), "n": rng.randint(1, 2)})
             else:
                 actor.append({"do": "append-blank", "n": rng.randint(1, 3)})
     reads = []
@@ -238,7 +241,7 @@ def execute(sc):
                         got, err = None, exc
                     log.emit("op-end", op="READ", ok=err is None, exc=type(err).__name__ if err else None)
                     _judge_read(res, c, name, rd, mv, got, err, state["head_names"], state["bad_cells"],
-                                state["row_line"], nrows, MPilotError, numpy)
+                                state["row_line"], nrows, MPilotError, numpy, lead=state.get("lead", 0))
                     if phase == "pre":
                         res.probe("column read before the file was changed")
 
@@ -277,7 +280,8 @@ def execute(sc):
                     pos = a["col"] % len(head_names)
                     if a["to"] not in head_names and len(set(head_names)) == len(head_names):
                         head_names[pos] = a["to"]
-                        lines[0] = _header_line(head_names)
+                        prefix = lines[0][:len(lines[0]) - len(lines[0].lstrip("\n\ufeff"))]
+                        lines[0] = prefix + _header_line(head_names)
                 elif a["do"] == "blank-after":
                     r = a["row"] % (nrows + 1)
                     at = (row_line[r - 1] + 1) if r > 0 else 1
@@ -287,6 +291,13 @@ def execute(sc):
                             row_line[k] += 1
                 elif a["do"] == "append-blank":
                     lines.extend([""] * a["n"])
+                elif a["do"] == "blank-before-header":
+                    if lines and not lines[0].startswith("\ufeff"):
+                        lines[0] = "\n" * a["n"] + lines[0]      # (kept inside element 0: the header record spans lines)
+                        state["lead"] = state.get("lead", 0) + a["n"]
+                elif a["do"] == "byte-order-mark":
+                    if lines and not lines[0].startswith(("\ufeff", "\n")):
+                        lines[0] = "\ufeff" + lines[0]
                 fs.files[PATH] = ("\n".join(lines) + "\n").encode("utf-8")
                 fs.mutations += 1
                 log.emit("actor", do=a["do"])
@@ -309,6 +320,7 @@ def execute(sc):
                 state["head_names"] = list(names2)
                 state["row_line"] = {r: r + 1 for r in range(nrows)}
                 state["bad_cells"] = {}
+                state["lead"] = 0
                 for c in cols:
                     if c["name"] in names2:
                         for r, m in enumerate(c["mask"]):
@@ -367,7 +379,7 @@ def execute(sc):
     return _finish(sc, res)
 
 
-def _judge_read(res, c, name, rd, mv, got, err, head_names, bad_cells, row_line, nrows, MPilotError, numpy):
+def _judge_read(res, c, name, rd, mv, got, err, head_names, bad_cells, row_line, nrows, MPilotError, numpy, lead=0):
     if name not in head_names:
         # header removed: the error must name the header
         if err is None:
@@ -381,7 +393,7 @@ def _judge_read(res, c, name, rd, mv, got, err, head_names, bad_cells, row_line,
     if bad_cells.get(name):
         first = min(bad_cells[name])
         # 1-based physical line of the first non-numeric cell of this column (the header record may span several lines)
-        true_line = row_line[first] + 1 + _header_line(head_names).count("\n")
+        true_line = row_line[first] + 1 + _header_line(head_names).count("\n") + lead
         if err is None:
             res.violate("C17.cell", "C17.cell non-numeric-cell-not-reported",
                         "column %r has a non-numeric cell on line %d but the read succeeded" % (name, true_line))
